@@ -1,12 +1,698 @@
 package main
 
-import "verif/lib"
-
 // Part B of C08: hostile input to the block-sync, mempool and peer-exchange
-// reactors (child processes: a panic outside a recover domain kills the node).
+// reactors and to the MConnection packet layer.
+//
+// Every scenario runs a REAL p2p.Switch with the real reactor(s) under test.
+// The harness is the remote side of real TCP connections on 127.0.0.1: it does
+// the secret-connection and node-info handshakes itself and then reads and
+// writes msgPackets directly (rawPeer), so that every byte a peer can send is
+// under its control. On the node's side the connection is handed to
+// Switch.AddPeerWithConnection exactly as listenerRoutine does.
+//
+// Where a panic lands decides:
+//   - inside a reactor's Receive (or anywhere below MConnection.recvRoutine):
+//     recovered by MConnection._recover, the peer is dropped. Allowed; counted
+//     with its site (observed through Reactor.RemovePeer's reason).
+//   - anywhere else (fast-sync poolRoutine, requester routines, mempool
+//     broadcast routines, PEX ensure-peers routine, a panic inside the recover
+//     handler itself, the listener routine): the process dies. Scenarios run in
+//     child processes; every hostile input is written to <out>.inputs before it
+//     is sent, so the parent reports the crash site (class key) with the last
+//     logged inputs as witness, then restarts a child behind the scenario that
+//     died.
+//   - the listener-routine part (AddPeerWithConnection) is called by the
+//     harness, which recovers there to classify the site without losing the
+//     child.
+
+import (
+	"bufio"
+	"bytes"
+	"errors"
+	"fmt"
+	"io"
+	"io/ioutil"
+	"net"
+	"os"
+	"path/filepath"
+	"reflect"
+	"runtime/debug"
+	"runtime/pprof"
+	"strconv"
+	"strings"
+	"sync"
+	"sync/atomic"
+	"syscall"
+	"time"
+
+	"github.com/spf13/viper"
+	"go.uber.org/zap"
+
+	crypto "github.com/dappledger/AnnChain/gemmill/go-crypto"
+	wire "github.com/dappledger/AnnChain/gemmill/go-wire"
+	gcmn "github.com/dappledger/AnnChain/gemmill/modules/go-common"
+	glog "github.com/dappledger/AnnChain/gemmill/modules/go-log"
+	"github.com/dappledger/AnnChain/gemmill/p2p"
+
+	"verif/lib"
+)
+
+// ---- families ---------------------------------------------------------------------
+
+type family struct {
+	name     string
+	children int                                   // parallel child processes
+	total    func() int                            // number of scenarios (fixed by tier)
+	run      func(cr *childRun, sid int)           // one scenario, inside a child
+	watchdog func(nScen int) time.Duration         // per child
+	crashKey func(site, routine string) string     // violation class for a dead child
+	after    func(run *lib.Run, totalScen int)     // Require()s in the parent
+}
+
+func families() []*family {
+	return []*family{bcFamily(), mpFamily(), pexFamily(), connFamily()}
+}
+
+// ---- parent -----------------------------------------------------------------------
 
 // runReactorParts is called by main after the consensus-channel part.
-func runReactorParts(run *lib.Run) {}
+func runReactorParts(run *lib.Run) {
+	self := os.Getenv("VERIF_SELF")
+	if self == "" {
+		self, _ = os.Executable()
+	}
+	dir := lib.Scratch(prop + "-r")
+	defer os.RemoveAll(dir)
+	var wg sync.WaitGroup
+	for _, f := range families() {
+		n := f.total()
+		for c := 0; c < f.children; c++ {
+			wg.Add(1)
+			go func(f *family, c, n int) {
+				defer wg.Done()
+				superviseChild(run, self, dir, f, c, n)
+			}(f, c, n)
+		}
+	}
+	wg.Wait()
+	for _, f := range families() {
+		f.after(run, f.total())
+	}
+}
 
-// reactorWorker is the child-process entry ("rworker" argument).
-func reactorWorker(args []string) {}
+// superviseChild runs the scenarios c, c+children, c+2*children, ... of a family
+// in a child process; when the child dies it reports the crash and starts a new
+// child behind the scenario that was in flight.
+func superviseChild(run *lib.Run, self, dir string, f *family, c, n int) {
+	from := c
+	for attempt := 0; from < n; attempt++ {
+		if attempt > 8 {
+			run.Inconclusive(fmt.Sprintf("%s child %d: more than 8 crashes, scenarios from %d on were not run", f.name, c, from))
+			return
+		}
+		out := filepath.Join(dir, fmt.Sprintf("%s-%d-%d.json", f.name, c, attempt))
+		logf := filepath.Join(dir, fmt.Sprintf("%s-%d-%d.log", f.name, c, attempt))
+		nScen := (n - from + f.children - 1) / f.children
+		wd := f.watchdog(nScen)
+		output, timedOut, err := lib.RunCmd(wd, logf, nil, self, "rworker", f.name, out, strconv.Itoa(from), strconv.Itoa(f.children), strconv.Itoa(n))
+		inputs, _ := ioutil.ReadFile(out + ".inputs")
+		complete := false
+		if b, e := ioutil.ReadFile(out); e == nil {
+			complete = bytes.Contains(b, []byte(`"complete":true`))
+			if ie := run.Import(out); ie != nil {
+				run.Inconclusive(fmt.Sprintf("%s child %d: cannot import %s: %v", f.name, c, out, ie))
+			}
+		}
+		if complete {
+			return
+		}
+		inflight, lastInputs := inFlight(string(inputs))
+		if timedOut {
+			run.Inconclusive(fmt.Sprintf("%s child %d hit the %v watchdog in scenario %d: %s", f.name, c, wd, inflight, tailLines(output, 6)))
+			if inflight < 0 {
+				return
+			}
+			from = inflight + f.children
+			continue
+		}
+		// the node process died
+		site, routine, crash := crashSite(output)
+		key := f.crashKey(site, routine)
+		run.Count(f.name+"_child_crashes", 1)
+		run.Violation(key, fmt.Sprintf("%s scenario %d: the node process died (%v) in %s at %s; last inputs: %s", f.name, inflight, err, routine, site, tailLines(lastInputs, 3)),
+			map[string]interface{}{"family": f.name, "scenario": inflight, "seed": lib.Seed(), "crash_site": site, "crashed_routine": routine, "crash_output": crash, "last_logged_inputs": lastInputs,
+				"replay": fmt.Sprintf("VERIF_SEED=%d VERIF_TIER=%s bin/c08 rworker %s /tmp/out.json %d 1 %d", lib.Seed(), lib.Tier(), f.name, inflight, inflight+1)})
+		if inflight < 0 {
+			run.Inconclusive(fmt.Sprintf("%s child %d died before its first scenario: %s", f.name, c, tailLines(output, 6)))
+			return
+		}
+		from = inflight + f.children
+	}
+}
+
+// inFlight parses the input log: the scenario that was begun and not ended, and
+// the inputs logged for it.
+func inFlight(log string) (int, string) {
+	cur := -1
+	var lines []string
+	for _, l := range strings.Split(log, "\n") {
+		if strings.HasPrefix(l, "BEGIN ") {
+			cur, _ = strconv.Atoi(strings.Fields(l)[1])
+			lines = lines[:0]
+		} else if strings.HasPrefix(l, "END ") {
+			// keep cur: a crash after END and before the next BEGIN belongs to background routines of that scenario
+			lines = append(lines, l)
+		} else if l != "" {
+			lines = append(lines, l)
+		}
+	}
+	if len(lines) > 40 {
+		lines = lines[len(lines)-40:]
+	}
+	for i, l := range lines {
+		if len(l) > 1500 {
+			lines[i] = l[:1500] + "...(truncated)"
+		}
+	}
+	return cur, strings.Join(lines, "\n")
+}
+
+// crashSite extracts, from a dead Go process's output, the innermost AnnChain
+// frame of the panicking goroutine (class key) and the goroutine's entry
+// function (which routine died).
+func crashSite(output string) (site, routine, crash string) {
+	i := strings.LastIndex(output, "\npanic: ")
+	if j := strings.LastIndex(output, "fatal error: "); j > i {
+		i = j
+	}
+	if i < 0 {
+		if k := strings.LastIndex(output, "panic: "); k >= 0 {
+			i = k
+		} else {
+			return "unknown", "unknown", tailLines(output, 30)
+		}
+	}
+	crash = output[i:]
+	if len(crash) > 12000 {
+		crash = crash[:12000]
+	}
+	// first goroutine block
+	g := crash
+	if k := strings.Index(g, "\ngoroutine "); k >= 0 {
+		g = g[k+1:]
+		if e := strings.Index(g, "\n\n"); e >= 0 {
+			g = g[:e]
+		}
+	}
+	var kept []string
+	for _, l := range strings.Split(g, "\n") {
+		if strings.Contains(l, "go-common.Panic") || strings.Contains(l, "go-common.panicLog") {
+			continue
+		}
+		kept = append(kept, l)
+	}
+	site = panicSite(strings.Join(kept, "\n"))
+	routine = "unknown"
+	for _, l := range kept {
+		if strings.HasPrefix(l, "created by ") {
+			routine = strings.TrimPrefix(l, "created by ")
+			if k := strings.Index(routine, " in goroutine"); k >= 0 {
+				routine = routine[:k]
+			}
+			if j := strings.LastIndex(routine, "AnnChain/"); j >= 0 {
+				routine = routine[j+len("AnnChain/"):]
+			}
+		}
+	}
+	// the outermost AnnChain function of that goroutine says which routine it is
+	for k := len(kept) - 1; k >= 0; k-- {
+		l := kept[k]
+		if strings.Contains(l, "AnnChain/") && !strings.HasPrefix(l, "\t") && !strings.HasPrefix(l, "created by") {
+			if j := strings.LastIndex(l, "("); j > 0 {
+				l = l[:j]
+			}
+			if j := strings.LastIndex(l, "AnnChain/"); j >= 0 {
+				l = l[j+len("AnnChain/"):]
+			}
+			routine = l
+			break
+		}
+	}
+	return
+}
+
+// ---- child ------------------------------------------------------------------------
+
+type childRun struct {
+	run   *lib.Run
+	fam   *family
+	inlog *os.File
+	base  string
+	sid   int
+	mtx   sync.Mutex
+}
+
+// logInput writes a hostile input to disk before it is delivered.
+func (cr *childRun) logInput(who, desc string, ch byte, b []byte) {
+	cr.mtx.Lock()
+	if len(b) > 6000 {
+		fmt.Fprintf(cr.inlog, "S%d %s ch=%02X %s len=%d head=%X\n", cr.sid, who, ch, desc, len(b), b[:6000])
+	} else {
+		fmt.Fprintf(cr.inlog, "S%d %s ch=%02X %s len=%d bytes=%X\n", cr.sid, who, ch, desc, len(b), b)
+	}
+	cr.mtx.Unlock()
+}
+
+func (cr *childRun) note(format string, a ...interface{}) {
+	cr.mtx.Lock()
+	fmt.Fprintf(cr.inlog, "S%d # %s\n", cr.sid, fmt.Sprintf(format, a...))
+	cr.mtx.Unlock()
+}
+
+// reactorWorker is the child-process entry: rworker <family> <out> <from> <stride> <n>.
+func reactorWorker(args []string) {
+	if len(args) < 5 {
+		fmt.Println("usage: rworker <family> <out> <from> <stride> <n>")
+		os.Exit(2)
+	}
+	var lim syscall.Rlimit
+	lim.Cur, lim.Max = 6<<30, 6<<30
+	syscall.Setrlimit(syscall.RLIMIT_AS, &lim)
+	glog.SetLog(zap.NewNop())
+	glog.SetAuditLog(zap.NewNop())
+	var fam *family
+	for _, f := range families() {
+		if f.name == args[0] {
+			fam = f
+		}
+	}
+	if fam == nil {
+		fmt.Println("unknown family", args[0])
+		os.Exit(2)
+	}
+	out := args[1]
+	from, _ := strconv.Atoi(args[2])
+	stride, _ := strconv.Atoi(args[3])
+	n, _ := strconv.Atoi(args[4])
+	if stride < 1 {
+		stride = 1
+	}
+	run := lib.NewChildRun(prop)
+	base := lib.Scratch(prop + "-rw")
+	defer os.RemoveAll(base)
+	inlogPath := out + ".inputs"
+	inlog, err := os.Create(inlogPath)
+	if err != nil {
+		fmt.Println("cannot create input log:", err)
+		os.Exit(2)
+	}
+	cr := &childRun{run: run, fam: fam, inlog: inlog, base: base}
+	for sid := from; sid < n; sid += stride {
+		cr.sid = sid
+		fmt.Fprintf(inlog, "BEGIN %d %s\n", sid, fam.name)
+		run.Eval()
+		fam.run(cr, sid)
+		cr.mtx.Lock()
+		fmt.Fprintf(inlog, "END %d\n", sid)
+		cr.mtx.Unlock()
+		run.ExportTo(out) // keep what was observed if a later scenario kills the process
+	}
+	// background routines of the last scenarios get a moment to die on their own
+	time.Sleep(150 * time.Millisecond)
+	inlog.Close()
+	run.MarkComplete()
+	if err := run.ExportTo(out); err != nil {
+		fmt.Println("export failed:", err)
+		os.RemoveAll(base)
+		os.Exit(1)
+	}
+	os.Remove(inlogPath)
+}
+
+// ---- a node under test ---------------------------------------------------------------
+
+// observer is a channel-less reactor on the node's switch: it sees why peers are removed.
+type observer struct {
+	p2p.BaseReactor
+	cr      *childRun
+	prefix  string
+	added   int64
+	removed int64
+}
+
+func newObserver(cr *childRun, prefix string) *observer {
+	o := &observer{cr: cr, prefix: prefix}
+	o.BaseReactor = *p2p.NewBaseReactor("VerifObserver", o)
+	return o
+}
+
+func (o *observer) AddPeer(peer *p2p.Peer) { atomic.AddInt64(&o.added, 1) }
+
+func (o *observer) RemovePeer(peer *p2p.Peer, reason interface{}) {
+	atomic.AddInt64(&o.removed, 1)
+	if se, ok := reason.(gcmn.StackError); ok {
+		// a panic below recvRoutine/sendRoutine was recovered: the peer is dropped (allowed)
+		o.cr.run.Count(o.prefix+"_panics_inside_connection_recover_domain", 1)
+		o.cr.run.Distinct(o.prefix+"_recovered_panic_sites", stackSite(string(se.Stack)))
+	} else if reason != nil {
+		o.cr.run.Count(o.prefix+"_peers_dropped_with_error", 1)
+	}
+}
+
+func stackSite(stack string) string {
+	var kept []string
+	for _, l := range strings.Split(stack, "\n") {
+		if strings.Contains(l, "go-common.Panic") || strings.Contains(l, "go-common.panicLog") || strings.Contains(l, "_recover") || strings.Contains(l, "debug.Stack") {
+			continue
+		}
+		kept = append(kept, l)
+	}
+	return panicSite(strings.Join(kept, "\n"))
+}
+
+type rnode struct {
+	cr   *childRun
+	sw   *p2p.Switch
+	cfg  *viper.Viper
+	obs  *observer
+	priv crypto.PrivKeyEd25519
+	pfx  string
+}
+
+// newRNode makes a switch for the node under test; the caller adds reactors and starts it.
+func newRNode(cr *childRun, prefix string, cfg *viper.Viper, listenAddr string) *rnode {
+	n := &rnode{cr: cr, cfg: cfg, pfx: prefix}
+	n.sw = p2p.NewSwitch(cfg)
+	n.priv = crypto.GenPrivKeyEd25519()
+	n.sw.SetNodeInfo(&p2p.NodeInfo{PubKey: n.priv.PubKey(), Moniker: "node-under-test", Network: "c08", Version: "1.0.0", ListenAddr: listenAddr})
+	n.sw.SetNodePrivKey(n.priv)
+	n.obs = newObserver(cr, prefix)
+	n.sw.AddReactor("VERIF-OBSERVER", n.obs)
+	return n
+}
+
+func (n *rnode) stop() {
+	func() {
+		defer func() { recover() }()
+		n.sw.Stop()
+	}()
+}
+
+// inbound does what Switch.listenerRoutine does with an accepted connection. That
+// routine has no recover: a panic here kills a real node.
+func (n *rnode) inbound(c net.Conn, what string) (err error) {
+	defer func() {
+		if r := recover(); r != nil {
+			stack := string(debug.Stack())
+			site := stackSite(stack)
+			n.cr.run.ChildViolation("listener-routine-panic:"+site, fmt.Sprintf("%s scenario %d: %s made Switch.AddPeerWithConnection panic; the listener routine has no recover: the node dies: %v", n.cr.fam.name, n.cr.sid, what, r),
+				map[string]interface{}{"scenario": n.cr.sid, "seed": lib.Seed(), "input": what, "panic": fmt.Sprint(r), "stack": stack})
+			err = fmt.Errorf("panic: %v", r)
+			c.Close()
+		}
+	}()
+	_, err = n.sw.AddPeerWithConnection(c, false)
+	return err
+}
+
+func tcpPair() (net.Conn, net.Conn, error) {
+	l, err := net.Listen("tcp", "127.0.0.1:0")
+	if err != nil {
+		return nil, nil, err
+	}
+	defer l.Close()
+	type acc struct {
+		c net.Conn
+		e error
+	}
+	ch := make(chan acc, 1)
+	go func() {
+		c, e := l.Accept()
+		ch <- acc{c, e}
+	}()
+	c2, err := net.DialTimeout("tcp", l.Addr().String(), 5*time.Second)
+	if err != nil {
+		return nil, nil, err
+	}
+	a := <-ch
+	if a.e != nil {
+		c2.Close()
+		return nil, nil, a.e
+	}
+	return a.c, c2, nil
+}
+
+// ---- the harness side of a connection ---------------------------------------------------
+
+type xPacket struct {
+	ChannelID byte
+	EOF       byte
+	Bytes     []byte
+}
+
+type inMsg struct {
+	ch byte
+	b  []byte
+}
+
+type rawPeer struct {
+	name    string
+	priv    crypto.PrivKeyEd25519
+	info    *p2p.NodeInfo
+	conn    net.Conn
+	rd      *bufio.Reader
+	wmtx    sync.Mutex
+	in      chan inMsg
+	closed  chan struct{}
+	once    sync.Once
+	recving map[byte][]byte
+	theirs  *p2p.NodeInfo
+}
+
+func newIdentity(name string) (crypto.PrivKeyEd25519, *p2p.NodeInfo) {
+	priv := crypto.GenPrivKeyEd25519FromSecret([]byte(name))
+	return priv, &p2p.NodeInfo{PubKey: priv.PubKey(), Moniker: name, Network: "c08", Version: "1.0.0", ListenAddr: "127.0.0.1:1"}
+}
+
+// connect opens a connection to the node as peer `name` (handshakes included).
+func (n *rnode) connect(name string, info *p2p.NodeInfo, priv crypto.PrivKeyEd25519) (*rawPeer, error) {
+	return n.connectX(name, info, priv, nil)
+}
+
+// connectRetry is connect for a peer that comes back right after it was dropped: the
+// node may still be removing the old connection ("Duplicate peer").
+func (n *rnode) connectRetry(name string, info *p2p.NodeInfo, priv crypto.PrivKeyEd25519) (rp *rawPeer, err error) {
+	for try := 0; try < 80; try++ {
+		rp, err = n.connect(name, info, priv)
+		if err == nil || !strings.Contains(err.Error(), "Duplicate") {
+			return
+		}
+		time.Sleep(25 * time.Millisecond)
+	}
+	return
+}
+
+// connectX: infoBytes, when not nil, is written instead of the encoding of info.
+func (n *rnode) connectX(name string, info *p2p.NodeInfo, priv crypto.PrivKeyEd25519, infoBytes []byte) (*rawPeer, error) {
+	c1, c2, err := tcpPair()
+	if err != nil {
+		return nil, err
+	}
+	done := make(chan error, 1)
+	go func() { done <- n.inbound(c1, fmt.Sprintf("peer %s with node info %+v", name, *info)) }()
+	rp := &rawPeer{name: name, priv: priv, info: info, in: make(chan inMsg, 4096), closed: make(chan struct{}), recving: map[byte][]byte{}}
+	fail := func(e error) (*rawPeer, error) {
+		c2.Close()
+		select {
+		case <-done:
+		case <-time.After(25 * time.Second):
+		}
+		return nil, e
+	}
+	c2.SetDeadline(time.Now().Add(20 * time.Second))
+	sc, err := p2p.MakeSecretConnection(c2, priv)
+	if err != nil {
+		return fail(err)
+	}
+	// node info both ways
+	theirs := new(p2p.NodeInfo)
+	var e1, e2 error
+	gcmn.Parallel(func() {
+		var k int
+		if infoBytes != nil {
+			_, e1 = sc.Write(infoBytes)
+			return
+		}
+		wire.WriteBinary(info, sc, &k, &e1)
+	}, func() {
+		var k int
+		wire.ReadBinary(theirs, sc, 10240, &k, &e2)
+	})
+	if e1 != nil || e2 != nil {
+		return fail(fmt.Errorf("node info exchange: %v %v", e1, e2))
+	}
+	// exchange data both ways
+	gcmn.Parallel(func() {
+		var k int
+		wire.WriteBinary(&p2p.ExchangeData{}, sc, &k, &e1)
+	}, func() {
+		var k int
+		wire.ReadBinary(new(p2p.ExchangeData), sc, 10240, &k, &e2)
+	})
+	if e1 != nil || e2 != nil {
+		return fail(fmt.Errorf("exchange data: %v %v", e1, e2))
+	}
+	select {
+	case e := <-done:
+		if e != nil {
+			return fail(e)
+		}
+	case <-time.After(25 * time.Second):
+		return fail(errors.New("node did not finish adding the peer"))
+	}
+	c2.SetDeadline(time.Time{})
+	rp.conn, rp.rd, rp.theirs = sc, bufio.NewReaderSize(sc, 65536), theirs
+	go rp.readLoop()
+	return rp, nil
+}
+
+func (rp *rawPeer) close() {
+	rp.once.Do(func() {
+		close(rp.closed)
+		rp.conn.Close()
+	})
+}
+
+func (rp *rawPeer) isClosed() bool {
+	select {
+	case <-rp.closed:
+		return true
+	default:
+		return false
+	}
+}
+
+func (rp *rawPeer) readLoop() {
+	defer rp.close()
+	for {
+		var n int
+		var err error
+		t := wire.ReadByte(rp.rd, &n, &err)
+		if err != nil {
+			return
+		}
+		switch t {
+		case 0x01: // ping
+			rp.writeRaw([]byte{0x02})
+		case 0x02:
+		case 0x03:
+			pkt := wire.ReadBinary(xPacket{}, rp.rd, 0, &n, &err).(xPacket)
+			if err != nil {
+				return
+			}
+			rp.recving[pkt.ChannelID] = append(rp.recving[pkt.ChannelID], pkt.Bytes...)
+			if pkt.EOF == 1 {
+				m := inMsg{pkt.ChannelID, rp.recving[pkt.ChannelID]}
+				rp.recving[pkt.ChannelID] = nil
+				select {
+				case rp.in <- m:
+				default: // the harness does not keep up: drop (a peer may)
+				}
+			}
+		default:
+			return
+		}
+	}
+}
+
+func (rp *rawPeer) writeRaw(b []byte) error {
+	rp.wmtx.Lock()
+	defer rp.wmtx.Unlock()
+	if rp.isClosed() {
+		return io.ErrClosedPipe
+	}
+	rp.conn.SetWriteDeadline(time.Now().Add(10 * time.Second))
+	_, err := rp.conn.Write(b)
+	if err != nil {
+		go rp.close()
+	}
+	return err
+}
+
+// send delivers a whole message on a channel as well-formed msgPackets.
+func (rp *rawPeer) send(ch byte, msg []byte) error {
+	var buf bytes.Buffer
+	for {
+		k := len(msg)
+		if k > 1024 {
+			k = 1024
+		}
+		eof := byte(0)
+		if k == len(msg) {
+			eof = 1
+		}
+		buf.WriteByte(0x03)
+		buf.Write(wire.BinaryBytes(xPacket{ch, eof, msg[:k]}))
+		msg = msg[k:]
+		if eof == 1 {
+			break
+		}
+	}
+	return rp.writeRaw(buf.Bytes())
+}
+
+// waitClosed waits (bounded) until the node has dropped the connection.
+func (rp *rawPeer) waitClosed(d time.Duration) bool {
+	select {
+	case <-rp.closed:
+		return true
+	case <-time.After(d):
+		return false
+	}
+}
+
+// ---- helpers ----------------------------------------------------------------------------
+
+// rawValue makes a value whose go-wire encoding is exactly b (a byte array).
+func rawValue(b []byte) interface{} {
+	v := reflect.New(reflect.ArrayOf(len(b), reflect.TypeOf(byte(0)))).Elem()
+	reflect.Copy(v, reflect.ValueOf(b))
+	return v.Interface()
+}
+
+func goroutineDump(filter ...string) string {
+	var buf bytes.Buffer
+	pprof.Lookup("goroutine").WriteTo(&buf, 2)
+	var keep []string
+	for _, g := range strings.Split(buf.String(), "\n\n") {
+		ok := len(filter) == 0
+		for _, f := range filter {
+			if strings.Contains(g, f) {
+				ok = true
+			}
+		}
+		if ok {
+			if len(g) > 2500 {
+				g = g[:2500] + "\n..."
+			}
+			keep = append(keep, g)
+		}
+	}
+	if len(keep) > 40 {
+		keep = keep[:40]
+	}
+	return strings.Join(keep, "\n\n")
+}
+
+func waitUntil(d time.Duration, cond func() bool) bool {
+	deadline := time.Now().Add(d)
+	for {
+		if cond() {
+			return true
+		}
+		if time.Now().After(deadline) {
+			return cond()
+		}
+		time.Sleep(5 * time.Millisecond)
+	}
+}
